@@ -14,7 +14,7 @@ Norm(c) == [hops |-> c.hops, kv |-> c.kv, corrupt |-> c.corrupt, argerr |-> c.ar
 (* under another AS only is used; everything else about the case must be in order                        *)
 IsF14(e) == /\ e.e = "val" /\ "F14" \in KF /\ e.rc = RC.VALID
             /\ e.c.argerr = "none" /\ e.c.corrupt.f = "none"
-            /\ \A i \in 1..e.c.hops : e.c.kv[i] \in {"right", "two", "otheras"}
+            /\ \A i \in 1..e.c.hops : e.c.kv[i] \in {"right", "two", "garbagefirst", "otheras"}
             /\ \E i \in 1..e.c.hops : e.c.kv[i] = "otheras"
 OKLine(e) ==
   CASE e.e = "val" -> e.rc \in Expected(Norm(e.c)) \/ IsF14(e)
